@@ -16,10 +16,115 @@ including interpreter shutdown with foreign threads still alive.
 """
 import concurrent.futures
 import os
+import re
 
-from lib import vlib
+from lib import vlib, py2coq
 
 ID = "C36"
+
+# ------------------------------------------------------------------ regeneration of the pointer code (tie A)
+
+U = py2coq.Untranslatable
+VARS = {"ob": "VOb", "last": "VLast", "p": "VP", "n": "VN"}
+FLD = {"next": "FNext", "prev": "FPrev"}
+SNAPSHOT = dict(
+    gen_make_zombie=["PLoad VLast VHead FPrev", "PStore VOb FNext VHead", "PStore VOb FPrev VLast",
+                     "PStore VLast FNext VOb", "PStore VHead FPrev VOb"],
+    gen_make_zombie_guarded=True,
+    gen_detach=["PLoad VP VOb FPrev", "PLoad VN VOb FNext", "PStore VP FNext VN", "PStore VN FPrev VP",
+                "PStoreNull VOb FPrev", "PStoreNull VOb FNext"])
+
+
+def _fn_body(text, name):
+    ms = list(re.finditer(r"\b%s\s*\(\s*ThreadCanaryObj\s*\*\s*ob\s*\)\s*\{" % name, text))
+    if len(ms) != 1:
+        raise U("%s not found exactly once" % name)
+    i = ms[0].end() - 1
+    depth, j = 0, i
+    while j < len(text):
+        if text[j] == "{":
+            depth += 1
+        elif text[j] == "}":
+            depth -= 1
+            if depth == 0:
+                return text[i + 1:j]
+        j += 1
+    raise U(name + ": unbalanced braces")
+
+
+def _var(v):
+    if v not in VARS:
+        raise U("unknown pointer variable %r" % v)
+    return VARS[v]
+
+
+def _pointer_stmt(st):
+    m = re.fullmatch(r"(\w+) = cffi_zombie_head\.zombie_(next|prev)", st)
+    if m:
+        return "PLoad %s VHead %s" % (_var(m.group(1)), FLD[m.group(2)])
+    m = re.fullmatch(r"(\w+) = (\w+)->zombie_(next|prev)", st)
+    if m:
+        return "PLoad %s %s %s" % (_var(m.group(1)), _var(m.group(2)), FLD[m.group(3)])
+    m = re.fullmatch(r"(\w+)->zombie_(next|prev) = &cffi_zombie_head", st)
+    if m:
+        return "PStore %s %s VHead" % (_var(m.group(1)), FLD[m.group(2)])
+    m = re.fullmatch(r"(\w+)->zombie_(next|prev) = NULL", st)
+    if m:
+        return "PStoreNull %s %s" % (_var(m.group(1)), FLD[m.group(2)])
+    m = re.fullmatch(r"(\w+)->zombie_(next|prev) = (\w+)", st)
+    if m:
+        return "PStore %s %s %s" % (_var(m.group(1)), FLD[m.group(2)], _var(m.group(3)))
+    m = re.fullmatch(r"cffi_zombie_head\.zombie_(next|prev) = (\w+)", st)
+    if m:
+        return "PStore VHead %s %s" % (FLD[m.group(1)], _var(m.group(2)))
+    raise U("statement outside the pointer subset: %r" % st)
+
+
+def extract_pointer_code():
+    text = open(os.path.join(vlib.REPO, "src", "c", "misc_thread_common.h")).read()
+    text = re.sub(r"/\*.*?\*/", " ", text, flags=re.S)
+    text = re.sub(r"//[^\n]*", " ", text)
+    out = {}
+    body = " ".join(_fn_body(text, "thread_canary_make_zombie").split())
+    guard = 'if (ob->zombie_next) Py_FatalError("cffi: ThreadCanaryObj is already a zombie");'
+    out["gen_make_zombie_guarded"] = guard in body
+    body = body.replace(guard, "")
+    prog = []
+    for st in [x.strip() for x in body.split(";") if x.strip()]:
+        if st == "ThreadCanaryObj *last":
+            continue
+        prog.append(_pointer_stmt(st))
+    out["gen_make_zombie"] = prog
+    body = " ".join(_fn_body(text, "_thread_canary_detach_with_lock").split())
+    prog = []
+    for st in [x.strip() for x in body.split(";") if x.strip()]:
+        if st == "ThreadCanaryObj *p, *n":
+            continue
+        prog.append(_pointer_stmt(st))
+    out["gen_detach"] = prog
+    return out
+
+
+def gen_text(f, origin):
+    return ("(* C36/Gen.v — %s.  Do not edit: rewritten by tools/props/c36.py regen() on every run.\n"
+            "   Straight-line pointer code of thread_canary_make_zombie (after its guard) and\n"
+            "   _thread_canary_detach_with_lock, src/c/misc_thread_common.h. *)\n"
+            "From Coq Require Import List.\nImport ListNotations.\nFrom Cffi Require Import C36.Model.\n"
+            "Definition gen_make_zombie : list pstmt :=\n  [%s].\n"
+            "Definition gen_make_zombie_guarded : bool := %s.\n"
+            "Definition gen_detach : list pstmt :=\n  [%s].\n") % (
+                origin, "; ".join(f["gen_make_zombie"]), "true" if f["gen_make_zombie_guarded"] else "false",
+                "; ".join(f["gen_detach"]))
+
+
+def regen(ctx):
+    try:
+        f, status, origin = extract_pointer_code(), None, "regenerated from src/c/misc_thread_common.h"
+    except (U, OSError) as e:
+        f, status, origin = dict(SNAPSHOT), "fallback: %s" % e, "SNAPSHOT (extraction from the current source failed)"
+    st = py2coq.write_if_changed(os.path.join(vlib.COQ, "C36", "Gen.v"), gen_text(f, origin))
+    ctx.translator("C36/Gen.v", status or st)
+    ctx.extra["pointer_code_equals_snapshot"] = (f == SNAPSHOT)
 
 
 def gen_case(rng, n, length):
@@ -225,7 +330,12 @@ def run(ctx):
         "allocation failures (ignore_error paths of thread_canary_register) are not modelled",
         "the real interleaving of cffi_thread_shutdown with the sweep's locked regions is covered by the theorems only; "
         "the harness sequences whole callbacks / exits",
-        "threading.local data of a foreign thread is released exactly when its thread state is cleared (observed)"]
+        "threading.local data of a foreign thread is released exactly when its thread state is cleared (observed)",
+        "the pointer code of thread_canary_make_zombie / _thread_canary_detach_with_lock is regenerated into C36/Gen.v "
+        "(regex over misc_thread_common.h, fail closed) and proved to implement append/removal on the sequence the "
+        "model uses; the remaining functions are a hand model",
+        "EvDictDrop (a canary deallocated while its thread lives) is realised in the harness by removing the "
+        "'cffi.thread.canary' entry from the thread-state dict through ctypes.pythonapi inside a callback"]
     evaluate(ctx, generate(ctx))
 
 
@@ -238,7 +348,11 @@ MANIFEST = dict(
          "any number of threads: none of the code's fatal-error conditions fires, a thread state is deleted at most once "
          "and never while its thread is alive, a live foreign thread keeps the same thread state across callbacks, the "
          "zombie list is duplicate-free and holds only allocated canaries of exited threads, no dangling canary pointers, "
-         "states of exited threads are destroyed or queued. Tie: real pthreads driven through model-chosen event sequences; "
+         "states of exited threads are destroyed or queued (the queue is emptied by the next registration of any thread; "
+         "states of threads that exit after the last registration stay queued until finalization: residual leak, stated), "
+         "also when a canary is deallocated under cffi's feet while its thread lives (EvDictDrop). The doubly linked "
+         "zombie ring is proved at pointer level for the regenerated code of make_zombie / detach. "
+         "Tie: real pthreads driven through model-chosen event sequences; "
          "threading.local persistence, distinctness, destruction points and process survival compared with the model.",
     note="Trusted: Coq kernel; hand model tied by differential runs; CPython thread-state internals, pthread TLS "
          "destructor semantics and glibc are hypotheses. Theorems closed under the global context.",
